@@ -1,6 +1,7 @@
 import FlytModel.Proofs.BatchSeq
 import FlytModel.Proofs.BatchConc
 import FlytModel.Proofs.BatchBridge
+import FlytModel.Proofs.SpecBridge
 /-!
 # C11 — Cancelling a batch stops new items and never hangs or fakes success
 
@@ -207,5 +208,71 @@ example : ((simulate exConc 300 [.cancel, .release 0, .release 1]).bind fun sts 
 example : 0 < exConc.w ∧ 0 < exConc.cap ∧ exConc.execS ≠ .absent ∧ 0 < exConc.budget := by decide
 example : ((simulate exConc 300 [.cancel, .release 0, .release 1]).bind fun sts =>
       sts.getLast?.map fun s => Spec.c11 exConc (viewOf s [])) = some true := by decide
+
+/-! ## a batch node inside a flow -/
+
+/-- **Bridge (flow families): `Spec.c11Flow` holds of the model's own observation** of every run of `runNode` that
+    does not run out of fuel — any arena (the batch node at any nesting depth, in a loop, as the root itself), any
+    scripts, any run state (context live or done) and store: once a callback of a batch node's visit has cancelled
+    the context, no event of any other visit follows (the batch finishes, then the flow stops).  `storeOf`: whatever
+    the driver records as the store log. -/
+theorem c11Flow_bridge (env : Env) (fuel : Nat) (root : NodeId) (sid : StoreId) (st : RunSt)
+    (hfuel : (runNode env fuel root sid st).2.2 ≠ .fuel) (storeOf : List Ev → List Nat) :
+    Spec.c11Flow env st.ctx (Flyt.Proofs.obsWith storeOf (runNode env fuel root sid st)) = true :=
+  Flyt.Proofs.spec_c11Flow_of_big (Flyt.Proofs.big_of_runNode rfl hfuel) storeOf
+
+/-- … in the trace itself (wait events included): whatever follows a cancelling event of a batch node's visit is an
+    event of the same visit of the same batch node -/
+theorem flow_stops_after_batch_cancel (env : Env) (fuel : Nat) (root : NodeId) (sid : StoreId) (st : RunSt)
+    (hfuel : (runNode env fuel root sid st).2.2 ≠ .fuel) {pre post : List Ev} {c : Ev}
+    (hsplit : (runNode env fuel root sid st).1 = pre ++ c :: post) (hc : Flyt.Proofs.cancelsAt env c = true) :
+    ∀ e ∈ post, Spec.evKey e = Spec.evKey c := by
+  have ht := Flyt.Proofs.big_cancelTail (Flyt.Proofs.big_of_runNode (st' := (runNode env fuel root sid st).2.1) rfl hfuel)
+  unfold Flyt.Proofs.CancelTail at ht
+  rw [hsplit, List.pairwise_append, List.pairwise_cons] at ht
+  intro e he
+  exact (ht.2.1.1 e he hc).1
+
+/-! ### non-vacuity: flow 0 = batch 1 —default→ leaf 2 —default→ batch 1 (a loop); three items; the exec call of
+item 1 succeeds and cancels the context -/
+
+def exFlowBatch : BatchCfg :=
+  { budget := 2, wait := 0, fb := .passThrough, conc := 0, stop := false, execS := .any, hasPost := true, shape := .anys }
+def exFlowLeaf : LeafCfg :=
+  { retryable := false, budget := 0, wait := 0, fb := .absent, prepS := .direct, execS := .direct, postS := .direct }
+def exFlowLeafScr : LeafScript :=
+  { prep := { res := .ok (.tok 1) }, exec := fun _ => { res := .ok (.tok 2) }, waitCancel := fun _ => false,
+    fb := { res := .ok (.tok 3) }, post := { res := .ok "" } }
+def exFlowBatchScr (cancelAt : Nat) : BatchScript :=
+  { prep := { res := .ok [.tok 10, .tok 11, .tok 12] }, post := { res := .ok "" },
+    item := fun i => { exec := fun _ => { res := .ok (.tok (100 + i)), cancels := i == cancelAt },
+                       waitCancel := fun _ => false, fb := { res := .error 0 } } }
+/-- the batch node cancels (inside the exec call of item 1) on its visit number `cv` -/
+def exFlowEnv (cv : Nat) : Env :=
+  { kind := .canceled,
+    arena := fun id =>
+      if id = 0 then .flow (some 1) [⟨1, "default", some 2⟩, ⟨2, "default", some 1⟩]
+      else if id = 1 then .batch exFlowBatch else .leaf exFlowLeaf,
+    leafBeh := fun _ _ => exFlowLeafScr,
+    batchBeh := fun _ v => exFlowBatchScr (if v = cv then 1 else 7) }
+def exFlowSt : RunSt := { ctx := .live, visits := fun _ => 0 }
+
+-- cancellation on the batch node's SECOND visit (after one round of the loop): the first cancelling callback is a
+-- batch event (item 1's exec call); the batch still calls post — with item 2 never executed — and then the flow
+-- stops with the context's error instead of going on to leaf 2 and looping: only events of visit (1, 1) follow
+example : (Spec.noWaits (runNode (exFlowEnv 1) 20 0 0 exFlowSt).1).map Spec.evKey =
+      [(1, 0), (1, 0), (1, 0), (1, 0), (1, 0), (2, 0), (2, 0), (2, 0), (1, 1), (1, 1), (1, 1), (1, 1)] ∧
+    (Spec.noWaits (runNode (exFlowEnv 1) 20 0 0 exFlowSt).1).findIdx? (Spec.scriptCancels (exFlowEnv 1)) = some 10 ∧
+    (Spec.noWaits (runNode (exFlowEnv 1) 20 0 0 exFlowSt).1).getD 10 default = .bexec 1 1 1 0 (.tok 11) ∧
+    (Spec.noWaits (runNode (exFlowEnv 1) 20 0 0 exFlowSt).1).drop 11 =
+      [.bpost 1 1 0 [.res (.tok 10) none, .res (.tok 11) none, .res (.tok 12) none]
+        [.res (.tok 100) none, .res (.tok 101) none, .res .nil (some (.fw .batchCancelled))]] ∧
+    (runNode (exFlowEnv 1) 20 0 0 exFlowSt).2.2 = .err (.ctx .canceled) ∧
+    Spec.c11Flow (exFlowEnv 1) .live (Flyt.Proofs.obsWith (fun _ => []) (runNode (exFlowEnv 1) 20 0 0 exFlowSt)) = true := by
+  decide
+-- the predicate is not trivially true: it rejects the same trace continued with a visit of leaf 2
+example : Spec.c11Flow (exFlowEnv 1) .live
+    { trace := Spec.noWaits (runNode (exFlowEnv 1) 20 0 0 exFlowSt).1 ++ [.prep 2 1 0],
+      out := .err (.ctx .canceled), store := [] } = false := by decide
 
 end Flyt.Props.C11
